@@ -54,6 +54,8 @@ def make_app_classes():
                 raise RuntimeError("handler failure injected by the environment")
             if self.behaviour == "answer":
                 self.send_answer(self.generate_answer(message, result_code=2001))
+            if self.behaviour == "answer_norc":        # an answer that carries no Result-Code (e.g. Experimental-Result only)
+                self.send_answer(self.generate_answer(message))
 
         def handle_answer(self, message):
             self.nw.world.obs("handle_answer", self.index, message.header.hop_by_hop_identifier,
